@@ -216,7 +216,10 @@ def replay_generic(rec):
         code = ("import sys; sys.path.insert(0, %r); from vlib import common, orderpass; common.bind_repo(); "
                 "c = orderpass._ev(%r); print('optimize =', sys.flags.optimize, '->', orderpass.outcome(c))" % (common.VERIF, c['call']))
         for flag in ('', c['interpreter']):
-            subprocess.run([sys.executable] + ([flag] if flag else []) + ['-c', code])
+            if flag == 'debug-logging':
+                subprocess.run([sys.executable, '-c', "import logging; logging.basicConfig(level=logging.DEBUG, handlers=[logging.NullHandler()]); print('DEBUG logging on'); " + code])
+            else:
+                subprocess.run([sys.executable] + ([flag] if flag else []) + ['-c', code])
         return 1
     common.bind_repo()
     from vlib import callhelpers
